@@ -59,24 +59,24 @@ Theorem C07_decode_injective :
 Proof. exact decode1_inj. Qed.
 Print Assumptions C07_decode_injective.
 
-(* the 256-entry table of the code at HEAD translates an operand character exactly as alphabet membership
-   says (member -> its code, decoding back to the upper-cased character; non-member -> EncodingError),
-   for every character that is not (non-letter member)+32 ... *)
+(* history: the 256-entry table BEFORE the C06 repair (alphabet+32 for every member; /repo before c99b89e)
+   translated an operand character as alphabet membership says (member -> its code, decoding back to the
+   upper-cased character; non-member -> EncodingError) only for characters that are not (non-letter member)+32 ... *)
 Theorem C07_lookup_pinned_partial :
   forall al c, alpha_ok al -> shadow al c = false ->
     s_prep (Alpha al) c = option_map (decode1 (Alpha al)) (m_prep_pinned (Alpha al) c).
 Proof. exact prep_head_partial. Qed.
 Print Assumptions C07_lookup_pinned_partial.
-(* ... and not for such a character (DigitEncoding, 'P'): the finding of C06 *)
+(* ... and not for such a character (DigitEncoding, 'P'): the finding of C06, repaired in /repo *)
 Theorem C07_lookup_pinned_refuted :
   exists al c, alpha_ok al /\ s_prep (Alpha al) c <> option_map (decode1 (Alpha al)) (m_prep_pinned (Alpha al) c).
 Proof. exact prep_head_refuted. Qed.
 Print Assumptions C07_lookup_pinned_refuted.
-(* the repaired table: every character *)
-Theorem C07_lookup_fixed :
+(* the table of the code at /repo HEAD (lower-case entries only for letters): every character *)
+Theorem C07_lookup :
   forall al c, alpha_ok al -> s_prep (Alpha al) c = option_map (decode1 (Alpha al)) (m_prep (Alpha al) c).
 Proof. exact prep_fixed_full. Qed.
-Print Assumptions C07_lookup_fixed.
+Print Assumptions C07_lookup.
 
 (* ---- the property: operations commute with decoding ---- *)
 
@@ -92,8 +92,9 @@ Theorem C07_step_simulation :
 Proof. exact step_simulation. Qed.
 Print Assumptions C07_step_simulation.
 
-(* whole programs (every finite sequence of operations), with the table of the code at HEAD: every
-   observation of every step, and the object copy() was taken from, decode to the Spec's. *)
+(* whole programs (every finite sequence of operations): every observation of every step, and the object
+   copy() was taken from, decode to the Spec's.  History: with the table before the C06 repair this holds for
+   operand characters outside (non-letter member)+32 ... *)
 Theorem C07_program_pinned_partial :
   forall vr e ops v saved,
     match e with Base => True | Alpha al => alpha_ok al end -> enc_of v = e ->
@@ -103,15 +104,15 @@ Theorem C07_program_pinned_partial :
     = s_run (mapv (decode1 e) v) (option_map (mapv (decode1 e)) saved) ops.
 Proof. exact program_head_partial. Qed.
 Print Assumptions C07_program_pinned_partial.
-(* with the repaired table: no restriction on the characters *)
-Theorem C07_program_fixed :
+(* ... with the table of the code at /repo HEAD: no restriction on the characters *)
+Theorem C07_program :
   forall vr e ops v saved,
     match e with Base => True | Alpha al => alpha_ok al end -> enc_of v = e ->
     Forall (fun o => o <> SArr) ops ->
     map_run (decode1 e) (g_run (model_prims_with m_prep vr) v saved ops)
     = s_run (mapv (decode1 e) v) (option_map (mapv (decode1 e)) saved) ops.
 Proof. exact program_fixed_full. Qed.
-Print Assumptions C07_program_fixed.
+Print Assumptions C07_program.
 
 (* T4: the encoding of every result is the encoding of the operand *)
 Theorem C07_encoding_preserved :
@@ -127,19 +128,19 @@ Theorem C07_foreign_char_raises :
 Proof. exact foreign_char_raises. Qed.
 Print Assumptions C07_foreign_char_raises.
 
-(* ---- the code at HEAD versus the step function above ---- *)
-(* the repaired code is the step function the theorems are about *)
+(* ---- the code at /repo HEAD ([repaired], Corr.current) and before fix 5b17763 ([pinned]) versus the step function above ---- *)
+(* the code at HEAD is the step function the theorems are about *)
 Theorem C07_step_repaired :
   forall v o, m_step_v repaired true v o = g_step (model_prims_with m_prep repaired) v o.
 Proof. exact step_repaired_is_g_step. Qed.
 Print Assumptions C07_step_repaired.
-(* HEAD agrees with it except where one character is stored at ONE integer position ... *)
+(* the code before 5b17763 agreed with it except where one character is stored at ONE integer position ... *)
 Theorem C07_step_pinned_partial :
   forall v o, scalar_position v o = false ->
     m_step_v pinned true v o = g_step (model_prims_with m_prep pinned) v o.
 Proof. exact step_pinned_partial. Qed.
 Print Assumptions C07_step_pinned_partial.
-(* ... where it raises although the operation is defined (a[0] = 'G' on 'AA' over ACGT) *)
+(* ... where it raised although the operation is defined (a[0] = 'G' on 'AA' over ACGT) *)
 Theorem C07_step_pinned_refuted :
   exists v o, snd (m_step_v pinned true v o) = ORaise /\ exists v', snd (s_step (dec_value v) o) = OV v'.
 Proof. exact step_pinned_refuted. Qed.
